@@ -25,6 +25,7 @@ func H_renderAfterJS(t int, es6 bool) {
 		b.AddTemplateString(f.name, f.src)
 	}
 	b.AddGlobalsMap(c13Globals)
+	b.AddGlobalsMap(c13Globals2)
 	reg, err := b.Compile()
 	if err != nil {
 		verifAssert(false, "harness: bundle does not compile: "+err.Error())
